@@ -683,33 +683,35 @@ def execOpcode (cx : Ctx) (e : SEE) (op : Opcode) (fExec : Bool) (pc : Bytes) : 
     else sizeCheck { e with stack := st ++ [if fSuccess then vchTrue else vchFalse], nOpCount := nOpCount }
   | _ => fail .BAD_OPCODE
 
-/-- `StepScript(env, pc, local_script)`: one operation; returns the new environment and position -/
-def step (cx : Ctx) (e : SEE) (pc : Bytes) : M (SEE × Bytes) := do
+/-- the operation-count rule at the head of `StepScript`: `if (opcode > OP_16 && ++nOpCount > MAX_OPS_PER_SCRIPT)` for BASE / WITNESS_V0 -/
+def countOp (e : SEE) (opcode : Nat) : M SEE :=
+  if e.sigversion == .BASE || e.sigversion == .WITNESS_V0 then
+    if opcode > Op.OP_16 then
+      if e.nOpCount + 1 > Gen.MAX_OPS_PER_SCRIPT then fail .OP_COUNT
+      else pure { e with nOpCount := e.nOpCount + 1 }
+    else pure e
+  else pure e
+
+/-- `StepScript(env, pc, local_script)`: one operation; returns the new environment and position.
+    (Written with explicit conditionals in the order of the C++ checks.) -/
+def step (cx : Ctx) (e : SEE) (pc : Bytes) : M (SEE × Bytes) :=
   let fExec := e.cond.allTrue
   -- Read instruction
   match getOp pc with
   | none => fail .BAD_OPCODE
   | some g =>
     if g.data.length > Gen.MAX_SCRIPT_ELEMENT_SIZE then fail .PUSH_SIZE
-    let e ←
-      if e.sigversion == .BASE || e.sigversion == .WITNESS_V0 then
-        if g.opcode > Op.OP_16 then
-          if e.nOpCount + 1 > Gen.MAX_OPS_PER_SCRIPT then fail .OP_COUNT
-          else pure { e with nOpCount := e.nOpCount + 1 }
-        else pure e
-      else pure e
-    let op := Opcode.ofNat g.opcode
-    if !e.allowDisabled && isDisabledOpcode op then fail .DISABLED_OPCODE
-    if op == .OP_CODESEPARATOR && e.sigversion == .BASE && hasFlag e.flags Flag.CONST_SCRIPTCODE then fail .OP_CODESEPARATOR
-    if fExec && g.opcode ≤ Op.OP_PUSHDATA4 then
-      if e.requireMinimal && !checkMinimalPush g.data g.opcode then fail .MINIMALDATA
-      let e' ← sizeCheck { e with stack := e.stack ++ [g.data] }
-      pure (e', g.rest)
-    else if fExec || (Op.OP_IF ≤ g.opcode && g.opcode ≤ Op.OP_ENDIF) then
-      let e' ← execOpcode cx e op fExec g.rest
-      pure (e', g.rest)
     else
-      let e' ← sizeCheck e
-      pure (e', g.rest)
+      countOp e g.opcode >>= fun e =>
+      let op := Opcode.ofNat g.opcode
+      if !e.allowDisabled && isDisabledOpcode op then fail .DISABLED_OPCODE
+      else if op == .OP_CODESEPARATOR && e.sigversion == .BASE && hasFlag e.flags Flag.CONST_SCRIPTCODE then fail .OP_CODESEPARATOR
+      else if fExec && g.opcode ≤ Op.OP_PUSHDATA4 then
+        if e.requireMinimal && !checkMinimalPush g.data g.opcode then fail .MINIMALDATA
+        else sizeCheck { e with stack := e.stack ++ [g.data] } >>= fun e' => pure (e', g.rest)
+      else if fExec || (Op.OP_IF ≤ g.opcode && g.opcode ≤ Op.OP_ENDIF) then
+        execOpcode cx e op fExec g.rest >>= fun e' => pure (e', g.rest)
+      else
+        sizeCheck e >>= fun e' => pure (e', g.rest)
 
 end Btcdeb.Model
